@@ -1012,6 +1012,7 @@ class CodeGenerator(StructuredCodeGenerator):
         self.emitters = [self.module_emitter]
 
         self.current_function = None
+        self.for_loop_depth = 0
         self.used = False
 
     # }}}
@@ -2117,8 +2118,10 @@ class CodeGenerator(StructuredCodeGenerator):
                     self.expr(ubound-1)),
                 code_generator=self)
         em.__enter__()
+        self.for_loop_depth += 1
 
     def emit_for_end(self, loop_var_name):
+        self.for_loop_depth -= 1
         self.emitter.__exit__(None, None, None)
 
     def emit_assign_expr(self, assignee_sym, assignee_subscript, expr):
@@ -2300,6 +2303,12 @@ class CodeGenerator(StructuredCodeGenerator):
         *inst* contains the last use of that variable in the
         :attr:`current_function`. If so, emit code to deallocate that variable.
         """
+        if self.for_loop_depth:
+            # *inst* runs again in the next trip of the loop, and a variable
+            # assigned before the loop would be read after its release. The
+            # exit label of the phase function releases these variables.
+            return
+
         from dagrt.utils import is_state_variable
 
         read_and_written = inst.get_read_variables() | inst.get_written_variables()
